@@ -4,7 +4,7 @@
    are GENERATED from /repo on every run (Generated/SdssIds.v). *)
 From Coq Require Import ZArith List Bool.
 Import ListNotations.
-From PV Require Import Lib.Bits Generated.SdssIds C06.Model C06.Proofs.
+From PV Require Import Lib.Bits Lib.NumpyInt Generated.SdssIds C06.Model C06.Proofs C06.Typed C06.TypedProofs.
 Open Scope Z_scope.
 
 (* the range checks in the source are exactly the documented ranges *)
@@ -136,6 +136,44 @@ Theorem C06_specobjid_model_arrays : forall p f m r (line : option (list Z)),
   else ValueError.
 Proof. exact specobjid_model_arrays. Qed.
 Print Assumptions C06_specobjid_model_arrays.
+
+(* ---- storage types: the same results in NumPy's fixed-width arithmetic, for array arguments of ANY integer type
+   (int8 .. uint64) whose values are the given numbers.  objid_texpr / specobjid_texpr / mjd_array_texpr are the
+   GENERATED typed expressions (they keep the astype casts of the source). ---- *)
+
+(* the range analysis that licenses replacing fixed-width by unbounded arithmetic is sound, for every expression *)
+Theorem C06_range_analysis_sound : forall ivs e st lo hi, tcheck ivs e = Some (st, lo, hi) ->
+  forall env, env_ok ivs env ->
+  exists t, teval env e = TVal t (zeval (map snd env) e)
+            /\ match st with Some T => t = T | None => True end
+            /\ lo <= zeval (map snd env) e <= hi.
+Proof. exact tcheck_sound. Qed.
+Print Assumptions C06_range_analysis_sound.
+
+Theorem C06_objid_any_integer_type : forall ts vs, length vs = 7%nat -> all_fit ts vs ->
+  objid_doc_ranges vs = true ->
+  objid_typed_row (combine ts vs) = TOk I64 (pack objid_table vs).
+Proof. exact objid_typed_layout. Qed.
+Print Assumptions C06_objid_any_integer_type.
+
+Theorem C06_objid_any_integer_type_rejects : forall ts vs, length vs = 7%nat -> length ts = 7%nat ->
+  objid_doc_ranges vs = false -> objid_typed_row (combine ts vs) = TValueError.
+Proof. exact objid_typed_rejects. Qed.
+Print Assumptions C06_objid_any_integer_type_rejects.
+
+(* m is the TRUE MJD; the conversion to MJD-50000 happens inside, in fixed-width arithmetic *)
+Theorem C06_specobjid_any_integer_type : forall ts p f m r l i, all_fit ts [p; f; m; r; l; i] ->
+  specobjid_doc_ranges [p; f; m - 50000; r; l; i] = true -> l = 0 \/ i = 0 ->
+  specobjid_typed_row (combine ts [p; f; m; r; l; i]) = TOk U64 (pack specobjid_table [p; f; m - 50000; r; l + i]).
+Proof. exact specobjid_typed_layout. Qed.
+Print Assumptions C06_specobjid_any_integer_type.
+
+(* an out-of-range value can never be wrapped into the accepted range by the fixed-width MJD conversion *)
+Theorem C06_specobjid_any_integer_type_rejects : forall ts p f m r l i, all_fit ts [p; f; m; r; l; i] ->
+  specobjid_doc_ranges [p; f; m - 50000; r; l; i] = false ->
+  specobjid_typed_row (combine ts [p; f; m; r; l; i]) = TValueError.
+Proof. exact specobjid_typed_rejects. Qed.
+Print Assumptions C06_specobjid_any_integer_type_rejects.
 
 (* non-vacuity: the documented example IDs satisfy the hypotheses *)
 Example C06_example_objid :
